@@ -7,6 +7,7 @@ import (
 	"sort"
 	"strings"
 	"sync"
+	"time"
 
 	"gvh/internal/drv"
 	"gvh/internal/gvx"
@@ -464,6 +465,11 @@ func rcGen(r *rng.R, id int, o rcOpts) *rcCase {
 // runRandK1 generates n cases in batches, runs the real generator and the model on each and compares outcome,
 // method table and plan terms.
 func runRandK1(e *env, tag string, n, perBatch int, o rcOpts) error {
+	return runRandK1Opt(e, tag, n, perBatch, o, false)
+}
+
+// compile = the emitted file of every successful case is also compiled together with the user's packages (C01).
+func runRandK1Opt(e *env, tag string, n, perBatch int, o rcOpts, compile bool) error {
 	r := e.r.Fork(uint64(len(tag))*104729 + 17)
 	base := filepath.Join(e.scratch, "rand-"+tag)
 	type batch struct {
@@ -506,6 +512,7 @@ func runRandK1(e *env, tag string, n, perBatch int, o rcOpts) error {
 	}
 	var mu sync.Mutex
 	var items []item
+	var compileErrs []map[string]any
 	var firstErr error
 	var wg sync.WaitGroup
 	sem := make(chan struct{}, 8)
@@ -524,6 +531,13 @@ func runRandK1(e *env, tag string, n, perBatch int, o rcOpts) error {
 					firstErr = fmt.Errorf("rand-%s: generated package does not load: %s", tag, truncate(res.DocsErr.Error(), 2500))
 				}
 				return
+			}
+			if compile {
+				if msg := rcCompile(b.root, b.module, res, b.cases); msg != nil {
+					for _, m := range msg {
+						compileErrs = append(compileErrs, m)
+					}
+				}
 			}
 			for _, oc := range res.Outcomes {
 				stages[oc.Stage]++
@@ -546,6 +560,13 @@ func runRandK1(e *env, tag string, n, perBatch int, o rcOpts) error {
 	wg.Wait()
 	if firstErr != nil {
 		return firstErr
+	}
+	for _, ce := range compileErrs {
+		ce["broken"] = e.prop + ": code emitted for a successful generation does not compile (compositional cases)"
+		e.rep.Violation(rcCompileClass(ce), ce, false)
+	}
+	if compile {
+		e.rep.Note("compositional cases (%s): the emitted file of every successful case compiled with the user's packages: %d do not compile", tag, len(compileErrs))
 	}
 	sort.Slice(items, func(i, j int) bool { return items[i].c.Name < items[j].c.Name })
 	var reqs []*sx.Node
@@ -644,5 +665,76 @@ func runRandFor(e *env) error {
 	if e.thorough {
 		n = 1500 * e.scale
 	}
-	return runRandK1(e, e.prop, n, 100, o)
+	return runRandK1Opt(e, e.prop, n, 100, o, e.prop == "C01")
+}
+
+// rcCompile writes every emitted file into a directory of its own inside the scratch module and builds the module;
+// compile errors are attributed to the converter owning the directory.
+func rcCompile(root, module string, res *gvx.Batch, cases map[string]*rcCase) []map[string]any {
+	dirOf := map[string]*rcCase{}
+	n := 0
+	for _, oc := range res.Outcomes {
+		if oc.Stage != "ok" {
+			continue
+		}
+		dir := fmt.Sprintf("gen%d", n)
+		n++
+		for path, content := range oc.Files {
+			dst := filepath.Join(root, dir, filepath.Base(path))
+			_ = os.MkdirAll(filepath.Dir(dst), 0o755)
+			_ = os.WriteFile(dst, content, 0o644)
+		}
+		dirOf[dir] = cases[oc.Raw.InterfaceName]
+	}
+	if n == 0 {
+		return nil
+	}
+	r := scratch.Run("go", root, []string{"build", "./..."}, []string{"GOFLAGS=-mod=mod", "GOPROXY=off", "GOSUMDB=off", "GOTOOLCHAIN=local"}, 300*time.Second)
+	if r.Exit == 0 {
+		return nil
+	}
+	byDir := map[string][]string{}
+	for _, line := range strings.Split(r.Stderr+r.Stdout, "\n") {
+		if i := strings.Index(line, "/generated.go:"); i > 0 {
+			d := line[:i]
+			if j := strings.LastIndex(d, "gen"); j >= 0 {
+				d = d[j:]
+			}
+			byDir[d] = append(byDir[d], strings.TrimSpace(line))
+		}
+	}
+	var out []map[string]any
+	if len(byDir) == 0 {
+		return []map[string]any{{"build_output": truncate(r.Stderr+r.Stdout, 3000)}}
+	}
+	var dirs []string
+	for d := range byDir {
+		dirs = append(dirs, d)
+	}
+	sort.Strings(dirs)
+	for _, d := range dirs {
+		m := map[string]any{"build_output": strings.Join(byDir[d], "\n")}
+		if c := dirOf[d]; c != nil {
+			m["converter_source"] = c.Types + c.Custom + c.Conv
+			m["foreign_package"] = c.Q
+		}
+		out = append(out, m)
+	}
+	return out
+}
+
+// rcCompileClass names the known classes of uncompilable output (known findings are matched by this key).
+func rcCompileClass(m map[string]any) string {
+	msg, _ := m["build_output"].(string)
+	for _, bc := range buildClasses {
+		if bc.re.MatchString(msg) {
+			return bc.class
+		}
+	}
+	switch {
+	case strings.Contains(msg, "assignment mismatch: 1 variable but") && strings.Contains(msg, "returns 2 values"),
+		strings.Contains(msg, "not enough arguments in call to"):
+		return "stale-call-of-a-helper-whose-signature-changed"
+	}
+	return "generated-code-does-not-compile"
 }
